@@ -90,7 +90,9 @@ class Cache:
         elif isinstance(arg, list):
             [self._update_hash(a) for a in arg]
         else:
-            self.ahash.update(str(arg).encode('utf-8'))
+            # The separator makes sure that e.g. the arguments (1, 0)
+            # and (10,) do not result in the same hash.
+            self.ahash.update((str(arg) + ";").encode('utf-8'))
 
     @staticmethod
     def clear_cache():
